@@ -439,6 +439,10 @@ func (ex *Exec) obligNamed(st *State, kind, name string, pos token.Pos, goal str
 	}
 	ob := &Obligation{Prop: ex.prop, Func: ref, Name: ref + "/" + name, Kind: kind, Pos: ex.pos(pos), Text: text}
 	ob.Script = ex.eng.smt.script(st.pc, not(goal), true)
+	if kind == "safety" && ex.inlineDepth == 0 {
+		ob.ex = ex
+		ob.cases = []retState{{st: st.clone()}}
+	}
 	ex.obs = append(ex.obs, ob)
 	return ob
 }
@@ -458,6 +462,10 @@ func (ex *Exec) obligCases(kind, name string, pos token.Pos, states []*State, go
 		ob.Finding = cl.Finding
 	}
 	ob.Script = ex.eng.smt.script(nil, or(cases...), true)
+	if kind == "post" {
+		ob.ex = ex
+		ob.cases = ex.rets
+	}
 	ex.obs = append(ex.obs, ob)
 	return ob
 }
